@@ -112,11 +112,11 @@ pub fn one(m: &Model, tag: &str, prop: &str) -> Case {
 
 pub fn configs() -> Vec<(&'static str, ModelCfg)> {
     vec![
-        ("affine", ModelCfg { max_vars: 3, depth: 2, logic: false, piecewise: false, unbounded: true, fractional: true }),
-        ("piecewise", ModelCfg { max_vars: 3, depth: 2, logic: false, piecewise: true, unbounded: false, fractional: false }),
-        ("piecewise-frac", ModelCfg { max_vars: 3, depth: 3, logic: false, piecewise: true, unbounded: true, fractional: true }),
-        ("logic", ModelCfg { max_vars: 4, depth: 2, logic: true, piecewise: false, unbounded: false, fractional: false }),
-        ("mixed", ModelCfg { max_vars: 4, depth: 3, logic: true, piecewise: true, unbounded: false, fractional: false }),
+        ("affine", ModelCfg { max_vars: 3, depth: 2, logic: false, piecewise: false, unbounded: true, fractional: true, strict_cmp: true }),
+        ("piecewise", ModelCfg { max_vars: 3, depth: 2, logic: false, piecewise: true, unbounded: false, fractional: false, strict_cmp: true }),
+        ("piecewise-frac", ModelCfg { max_vars: 3, depth: 3, logic: false, piecewise: true, unbounded: true, fractional: true, strict_cmp: true }),
+        ("logic", ModelCfg { max_vars: 4, depth: 2, logic: true, piecewise: false, unbounded: false, fractional: false, strict_cmp: true }),
+        ("mixed", ModelCfg { max_vars: 4, depth: 3, logic: true, piecewise: true, unbounded: false, fractional: false, strict_cmp: true }),
     ]
 }
 
